@@ -344,6 +344,23 @@ def _work(chunk):
                         V(kind + '/notebook-not-escaped-document', 'unescaping the srcdoc attribute does not give back to_html()')
                 if nm not in ('a', 'a b'):
                     acc.count('nontrivial')
+        # a renderer object is reused after the WBS changed: its output is the one a fresh renderer gives
+        if spent is None and pos == 0 and clock_off == timedelta(hours=2):
+            from pjplan import MermaidGantt, MermaidNetwork, DhtmlxGantt
+            wr, tr, _, _, clk = check(par, links, base_names, ms, sec, clock_off, acc, None)
+            seams.CLOCK.set_const(clk)
+            rs = [cls(wr) for cls in (MermaidGantt, MermaidNetwork, DhtmlxGantt)]
+            for r in rs:
+                r.to_html()
+            tr[-1].name = 'renamed later'
+            tr[0].gantt_section = 'LateSection'
+            tr[0].end = tr[0].end + timedelta(days=1)
+            for r, cls in zip(rs, (MermaidGantt, MermaidNetwork, DhtmlxGantt)):
+                acc.count('evaluations')
+                acc.count('rerender_after_change')
+                if r.to_html() != cls(wr).to_html():
+                    acc.violation('C19', f'{cls.__name__}/stale-after-wbs-change/other', 'to_html() of a renderer created before the WBS was '
+                                  'edited differs from a fresh renderer', {'parents': list(par), 'links': [list(x) for x in links]})
         if len(acc.samples) < 1:
             acc.sample({'parents': list(par), 'links': [list(x) for x in links], 'names_tried': NAMES})
     return acc
